@@ -291,6 +291,7 @@ namespace pika {
         template <typename Lock, typename Predicate>
         bool wait(Lock& lock, stop_token stoken, Predicate pred, error_code& ec = throws)
         {
+            PIKA_VERIF_POST("cva.stop0", this, stoken.stop_requested() ? 1 : 0, 0);
             if (stoken.stop_requested()) { return pred(); }
 
             auto data = data_;    // keep data alive
@@ -306,6 +307,7 @@ namespace pika {
                 [[maybe_unused]] util::ignore_all_while_checking ignore_lock;
 
                 std::unique_lock<mutex_type> l(data->mtx_);
+                PIKA_VERIF_POST("cva.stop1", this, stoken.stop_requested() ? 1 : 0, 0);
                 if (stoken.stop_requested())
                 {
                     // pred() has already evaluated to false since we last
